@@ -511,6 +511,8 @@ pub struct RecUv {
     /// one-shot: a credential that arrives in the given store while the user is being asked (a sync
     /// from another device, another tab finishing a registration)
     pub arrives_during_check: Arc<Mutex<Option<(RecStore, Passkey)>>>,
+    /// one-shot: anything else that happens to the world while the user is being asked
+    pub during_check: Arc<Mutex<Option<Box<dyn FnOnce() + Send>>>>,
 }
 
 impl RecUv {
@@ -522,7 +524,11 @@ impl RecUv {
             verification_enabled,
             actor: 0,
             arrives_during_check: Default::default(),
+            during_check: Default::default(),
         }
+    }
+    pub fn set_action_during_check(&self, f: Box<dyn FnOnce() + Send>) {
+        *self.during_check.lock().unwrap() = Some(f);
     }
     pub fn set_arrival_during_check(&self, store: RecStore, p: Passkey) {
         *self.arrives_during_check.lock().unwrap() = Some((store, p));
@@ -571,6 +577,10 @@ impl UserValidationMethod for RecUv {
         let shown = credential.map(|c| c.credential_id.to_vec());
         if let Some((store, p)) = self.arrives_during_check.lock().unwrap().take() {
             store.insert_raw(p);
+        }
+        let action = self.during_check.lock().unwrap().take();
+        if let Some(f) = action {
+            f();
         }
         YieldN(y).await;
         for _ in 0..spin {
